@@ -185,6 +185,40 @@ def classify (fields : List Field) (r : Req) (impl specOut : List String) : Stri
     if cs.all (· != "") then cs.headD "" else ""
   | _, _ => ((fields.map (fun f => Spec.Bind.fieldClass f r)).find? (· != "")).getD ""
 
+/-! sequences of entry-point calls on one binder -/
+
+def parseApi (s : String) : Option Api :=
+  match s with
+  | "a" => some .bind | "v" => some .validate | "p" => some .path
+  | "f" => some .form | "q" => some .query | "h" => some .header
+  | _ => none
+
+def apiChar : Api → Char
+  | .bind => 'a' | .validate => 'v' | .path => 'p' | .form => 'f' | .query => 'q' | .header => 'h'
+
+def parseSeq : P (List (List Field) × List (Api × Nat × Req)) := do
+  let types ← counted (counted parseField)
+  let steps ← counted (do
+    let a ← (do let t ← tok; (parseApi t : Option Api))
+    let ti ← natTok
+    let r ← parseReq
+    pure (a, ti, r))
+  pure (types, steps)
+
+/-- implementation output of a sequence: the outcome tokens of each step, each followed by `;` -/
+def splitSteps (l : List String) : List (List String) :=
+  let rec go (cur : List String) : List String → List (List String)
+    | [] => if cur.isEmpty then [] else [cur.reverse]
+    | t :: r => if t == ";" then cur.reverse :: go [] r else go (t :: cur) r
+  go [] l
+
+/-- some full bind of a type comes after a tag-restricted bind of the same type (or the other way round) -/
+def crossUse (steps : List (Api × Nat × Req)) : Bool :=
+  let rec go : List (Api × Nat × Req) → Bool
+    | [] => false
+    | s :: rest => rest.any (fun s' => s'.2.1 == s.2.1 && (s'.1.byTag != s.1.byTag)) || go rest
+  go steps
+
 def handle : Handler
   | "bind" :: mode :: rest, impl => do
     let ((fields, r), left) ← parseCase rest
@@ -205,6 +239,39 @@ def handle : Handler
            specNote := "declarative binding spec; expected " ++ " ".intercalate (specOut.getD []),
            cls := if specOk then "" else classify fields r impl (specOut.getD []),
            tag := "bind:" ++ mode ++ ":" ++ toString fields.length ++ ":" ++ bodyTag ++ ":" ++ shape ++ ":" ++ srcTag fields r }
+  | "bindseq" :: mode :: rest, impl => do
+    let ((types, steps), left) ← parseSeq rest
+    if !left.isEmpty then none
+    let implSteps := splitSteps impl
+    if implSteps.length != steps.length then none
+    let ops := steps.map (fun s => (s.1, types.getD s.2.1 [], s.2.2))
+    -- the model runs the calls through ONE binder with its five caches, as the harness does
+    let ms := ({} : TagBinder).run ops
+    let rows := (ops.zip (ms.zip implSteps)).map (fun x =>
+      let (a, fields, r) := x.1
+      let m := x.2.1
+      let im := x.2.2
+      let out := (renderOutcome fields m).getD im
+      -- the spec is stateless: a function of entry point, type and request
+      let specOut := renderOutcome fields (Spec.Bind.specBindBy a.byTag fields r)
+      let ok := match specOut with
+        | none => true
+        | some o => o == im
+      let cls := if ok then "" else match a.byTag with
+        | none => classify fields r im (specOut.getD [])
+        | some _ => ""
+      (out, ok, cls, specOut.getD []))
+    let out := (rows.map (fun x => x.1 ++ [";"])).flatten
+    let bad := rows.filter (fun x => !x.2.1)
+    let specOk := bad.isEmpty
+    let cls := if bad.all (fun x => x.2.2.1 != "") then (bad.map (·.2.2.1)).headD "" else ""
+    let firstBad := (rows.findIdx? (fun x => !x.2.1)).getD 0
+    pure { out := out, spec := specOk,
+           specNote := "stateless spec of every entry point; step " ++ toString firstBad ++ " expected " ++
+             " ".intercalate ((bad.map (·.2.2.2)).headD []),
+           cls := if specOk then "" else cls,
+           tag := "seq:" ++ mode ++ ":" ++ sizeClass steps.length ++ ":" ++ (if crossUse steps then "x" else "-") ++ ":" ++
+             String.ofList ((steps.take 2).map (fun s => apiChar s.1)) ++ ":" ++ (if specOk then "ok" else "dev") }
   | _, _ => none
 
 end Hertz.Driver.C15
